@@ -1,5 +1,5 @@
 """C13 - chain import converges under roll-backs (narrow; DESIGN.md section 4, C13)."""
-from core import glob_match
+from core import glob_match, rvalue_reads
 from engine import Sink, fn_origins, track_result, success_reachable, loop_info
 from props.common import Ctx, fn_short, parse_sql_comparison  # noqa: F401
 
@@ -110,80 +110,84 @@ def run(ctx):
         else:
             R.violation('a', 'R5', 'roll-back by slot: block number <- closest block for the slot; the removal error propagates', 'rollback:by-slot', '', g.loc())
 
-    # ---- (b), (c)
-    imp = ctx.try_fn('b', IMP + 'parse_and_store_block_and_transactions_not_imported_yet')
-    if imp is not None:
-        li = imp.logic()
-        body = li.body
-        ST = ['*::ChainDataStore::store_blocks_and_transactions']
-        RM = ['*::ChainDataStore::remove_rolled_chain_data_and_block_range']
-        sts, sedges = ctx.success_edges_of(li, ST)
-        rms, redges = ctx.success_edges_of(li, RM)
-        polls = ctx.call_sites(body, ['*::BlockStreamer::poll_next'])
-        problems = []
-        if not sts or not rms or not polls:
-            problems.append('store sites %d, roll-back sites %d, poll sites %d' % (len(sts), len(rms), len(polls)))
-        else:
-            # from the Some(batch) arm of the poll, the next poll is reachable only through a successful store or roll-back
-            pe = set()
-            for c in polls:
-                pe |= track_result(body, c.dest[0], +1).success_edges
-            # blocks after the poll succeeded
-            starts = [b for _, b in pe]
-            r = body.reach(starts, removed=sedges | redges, stop={c.bb for c in polls})
-            # the None arm (end of stream) legitimately leaves the loop; find whether a poll block is re-reachable
-            if any(c.bb in r for c in polls):
-                problems.append('a polled batch can be skipped (next poll reachable without a successful store / roll-back)')
-            for c in sts + rms:
-                tr = track_result(body, c.dest[0], +1)
-                if not tr.discharged():
-                    problems.append('result of %s not propagated' % fn_short(c.best()))
-            for c in rms:
-                og = fn_origins(li, c.args[1], True)
-                if not has(og, 'call:*::BlockStreamer::poll_next'):
-                    problems.append('roll-back slot does not come from the scanner event')
-            for c in sts:
-                og = fn_origins(li, c.args[1], True)
-                if not has(og, 'call:*::BlockStreamer::poll_next'):
-                    problems.append('stored blocks do not come from the scanner event')
-        if problems:
-            R.violation('b', 'R1', 'importer loop: every polled batch is stored or rolled back; errors propagate', 'importer:loop', '; '.join(sorted(set(problems))), imp.loc())
-        else:
-            R.ok('b', 'R1', 'importer loop: every polled batch is stored or rolled back; errors propagate', '', imp.loc())
-        # (c) cursor write after the loop: the lock().await + assignment is unreachable from inside an iteration without passing the poll None arm
-        lps = ctx.call_sites(body, ['*::BlockStreamer::last_polled_point'])
-        inst = 'importer: last_polled_point is written only after the batch loop ended (poll returned None)'
-        if not lps or not polls:
-            R.violation('c', 'R2', inst, 'importer:cursor', 'last_polled_point sites %d' % len(lps), imp.loc())
-        else:
-            none_edges = set()
-            for c in polls:
-                # Ok(None): after `?` the Option discriminant switch
+    # ---- (b), (c)  stated at the exported entry `run`: the polling loop is wherever BlockStreamer::poll_next is called under it; the
+    # store / roll-back / cursor steps may sit in the loop body or in helpers it awaits
+    RUN = IMP + 'run'
+    ST = ['*::ChainDataStore::store_blocks_and_transactions']
+    RM = ['*::ChainDataStore::remove_rolled_chain_data_and_block_range']
+    POLL = ['*::BlockStreamer::poll_next']
+    run_ = ctx.try_fn('b', RUN)
+    if run_ is not None:
+        loops = {}
+        for g, c in ctx.closure_sites(RUN, POLL, depth=4):
+            loops.setdefault(getattr(g, '_orig', g).name, (g, []))[1].append(c)
+        inst_b = 'importer loop: every polled batch is stored or rolled back; errors propagate'
+        inst_c = 'importer: last_polled_point is written only after the batch loop ended (poll returned None)'
+        if not loops:
+            R.violation('b', 'R1', inst_b, 'importer:loop', 'no BlockStreamer::poll_next call under run', run_.loc())
+        for li, polls in loops.values():
+            body = li.body
+            root_li = getattr(li, '_orig', li).root()
+            # helpers (under the loop function) that store / roll back / touch the cursor
+            def _helpers(pats):
+                out_ = []
+                for h in ctx.closure_fns(root_li, depth=3):
+                    if h is root_li:
+                        continue
+                    try:
+                        if ctx.closure_sites(h, pats, depth=2):
+                            out_.append(h.name)
+                    except Exception:  # noqa
+                        pass
+                return out_
+            sts, sedges = ctx.success_edges_of(li, ST + _helpers(ST))
+            rms, redges = ctx.success_edges_of(li, RM + _helpers(RM))
+            problems = []
+            if not sts or not rms:
+                problems.append('store sites %d, roll-back sites %d, poll sites %d' % (len(sts), len(rms), len(polls)))
+            else:
+                pe = set()
+                for c in polls:
+                    pe |= track_result(body, c.dest[0], +1).success_edges
+                starts = [b_ for _, b_ in pe]
+                r = body.reach(starts, removed=sedges | redges, stop={c.bb for c in polls})
+                if any(c.bb in r for c in polls):
+                    problems.append('a polled batch can be skipped (next poll reachable without a successful store / roll-back)')
+                # the store / roll-back results propagate, where they arise
+                for g2, c2 in ctx.closure_sites(root_li, ST + RM, depth=3):
+                    tr = track_result(g2.body, c2.dest[0], +1)
+                    if not tr.discharged():
+                        problems.append('result of %s not propagated' % fn_short(c2.best()))
+                    og = ctx.deep(root_li, g2, c2.args[1], True, up=3, depth=3)
+                    if not has(og, 'call:*::BlockStreamer::poll_next'):
+                        problems.append('%s is not given what the scanner event carried' % fn_short(c2.best()))
+                for c in sts + rms:
+                    if not track_result(body, c.dest[0], +1).discharged():
+                        problems.append('result of %s not propagated' % fn_short(c.best()))
+            if problems:
+                R.violation('b', 'R1', inst_b, 'importer:loop', '; '.join(sorted(set(problems))), li.loc())
+            else:
+                R.ok('b', 'R1', inst_b, '', li.loc())
+            # (c) cursor
+            LPP = ['*::BlockStreamer::last_polled_point']
+            lps = ctx.call_sites(body, LPP + _helpers(LPP))
+            if not lps:
+                R.violation('c', 'R2', inst_c, 'importer:cursor', 'last_polled_point sites 0', li.loc())
+            else:
+                none_edges = set()
                 for l, (ty, nm) in enumerate(body.locals):
                     if ty.startswith('std::option::Option<') and 'ChainScannedBlocks' in ty:
-                        for (bi, si, how, payload) in body.uses(l):
-                            if how == 'stmt' and payload[1][0] == 'discr':
-                                for (b2, s2, how2, pay2) in body.uses(payload[0][0]):
-                                    if how2 == 'sw':
-                                        from engine import switch_edges
-                                        su, fa = switch_edges(b2, pay2[0], 'option', +1)
-                                        none_edges |= fa
-            reach = body.reach([0], removed=none_edges)
-            bad = [c for c in lps if c.bb in reach]
-            if bad or not none_edges:
-                R.violation('c', 'R2', inst, 'importer:cursor', 'the cursor read/write is reachable without the end-of-stream arm', imp.loc())
-            else:
-                R.ok('c', 'R2', inst, '', imp.loc())
-    run_ = ctx.try_fn('b', IMP + 'run')
-    if run_ is not None:
-        ctx.r1('b', IMP + 'run', Sink('parse_and_store (unless already up to date)', IMP + 'parse_and_store_block_and_transactions_not_imported_yet', 'ok')) if False else None
-        lr = run_.logic()
-        ps = ctx.call_sites(lr.body, [IMP + 'parse_and_store_block_and_transactions_not_imported_yet'])
-        ok = bool(ps) and all(has(fn_origins(lr, c.args[2], True), 'p#2') and has(fn_origins(lr, c.args[1], True), 'call:' + IMP + 'start_point') for c in ps)
-        if ok:
-            R.ok('b', 'R5', 'run: import from start_point() up to the requested beacon', '', run_.loc())
-        else:
-            R.violation('b', 'R5', 'run: import from start_point() up to the requested beacon', 'importer:run-args', '', run_.loc())
+                        none_edges |= track_result(body, l, -1, 'option').success_edges
+                reach = body.reach([0], removed=none_edges)
+                bad = [c for c in lps if c.bb in reach]
+                if bad or not none_edges:
+                    R.violation('c', 'R2', inst_c, 'importer:cursor', 'the cursor read/write is reachable without the end-of-stream arm', li.loc())
+                else:
+                    R.ok('c', 'R2', inst_c, '', li.loc())
+        # the scan covers [start_point(), requested beacon]
+        SCAN = ['*::BlockScanner::scan']
+        ctx.sink_arg('b', RUN, SCAN, 1, require_via=[IMP + 'start_point'], desc='(from) <- start_point()', depth=4, key='importer:run-args:from')
+        ctx.sink_arg('b', RUN, SCAN, 2, require=['p#2'], desc='(until) <- the requested beacon', depth=4, key='importer:run-args:until')
 
     # ---- (d)
     s = ctx.try_fn('d', STORE)
@@ -350,103 +354,121 @@ def _fk_rules(ctx):
 
 
 def _streamer_rules(ctx):
-    """(g) the chain reader streamer forwards every roll-back except the protocol's initial roll-back to the intersection point."""
-    from engine import find_guards, accepted_relation
+    """(g) the chain reader streamer forwards every roll-back except the protocol's initial roll-back to the intersection point.
+    Stated on paths, not on how the streamer names its intermediate values: from the point where a RollBackward event of the chain
+    reader is taken apart, the streamer can move on (return, or ask the reader for the next event) WITHOUT having forwarded the
+    roll-back (put its point into a value it hands on, or truncated its buffer) only on paths where (i) the roll-back slot equals the
+    slot the scan started from and (ii) a piece of streamer state written while polling says nothing was delivered yet."""
+    from engine import find_guards
     R = ctx.report
     ws = ctx.ws
     R.clause('g', 'the block streamer drops no roll-back other than the initial one to the intersection point')
-    f = ctx.try_fn('g', STREAMER + 'ChainReaderBlockStreamer::get_next_chain_block_action')
-    if f is None:
-        return
-    lf = f.logic()
-    ACT = STREAMER + 'BlockStreamerNextAction'
-    try:
-        adt = ws.adt(ACT)
-        skip_idx = [v['n'] for v in adt['variants']].index('SkipToNextAction')
-    except Exception as e:  # noqa
-        R.missing('g', e)
-        return
-    inst = 'a RollBackward is skipped only when its slot equals the slot the scan started from'
-    problems = []
-    nskip = 0
-    for g in lf.family():
-        body = g.body
-        skips = []
-        for bi, b in enumerate(body.blocks):
-            if b.cleanup:
-                continue
-            for (ln, pl, rv) in b.stmts:
-                if rv[0] == 'agg' and rv[2] == ACT and rv[3] == skip_idx:
-                    skips.append(bi)
-        if not skips:
-            continue
-        nskip += len(skips)
-        gs = [x for x in find_guards(body) if x.op in ('Eq', 'Ne', 'Lt', 'Le', 'Gt', 'Ge')
-              and ((has(x.a_orig, '*from.slot_number*') and not has(x.b_orig, '*from.slot_number*'))
-                   or (has(x.b_orig, '*from.slot_number*') and not has(x.a_orig, '*from.slot_number*')))]
-        if not gs:
-            problems.append('SkipToNextAction built without a comparison with self.from.slot_number')
-            continue
-        for sb in skips:
-            ok = False
-            for x in gs:
-                rel_true = CMP_REL_[x.op]
-                # edges on which the relation is exactly "equal"
-                if rel_true == {'eq'}:
-                    eq_edges, other = x.true_edges, x.false_edges
-                elif ALL3_ - rel_true == {'eq'}:
-                    eq_edges, other = x.false_edges, x.true_edges
-                else:
-                    continue
-                # the skip is reachable only through the equal edge
-                if sb not in body.reach_bool([0], removed=set(eq_edges)):
-                    ok = True
-            if not ok:
-                problems.append('SkipToNextAction (bb%d) reachable when the roll-back slot differs from the start slot (guards: %s)' % (
-                    sb, ['%s' % x.op for x in gs]))
-    # ... and only while nothing has been streamed yet: the skip must also be gated by a piece of streamer STATE
-    # (a field of the streamer that the polling paths write), otherwise a real roll-back that lands exactly on the
-    # start point after blocks were delivered is swallowed too
     SELF = STREAMER + 'ChainReaderBlockStreamer'
+    PN = '<' + SELF + ' as mithril_cardano_node_chain::chain_scanner::interface::BlockStreamer>::poll_next'
+    pn = ctx.try_fn('g', PN)
+    if pn is None:
+        return
+    NEXT = ['*::ChainBlockReader::get_next_chain_block']
     written = set()
     for h in ws.fns:
         if h.root().name.startswith('<' + SELF + ' as ') or h.root().name.startswith(SELF + '::'):
             for fw in h.fwrites:
                 if fw[0] == SELF:
                     written.add(fw[1])
-    state_gated = nskip == 0
-    for g in lf.family():
-        body = g.body
-        skips = [bi for bi, b in enumerate(body.blocks) if not b.cleanup and any(rv[0] == 'agg' and rv[2] == ACT and rv[3] == skip_idx for (_, _, rv) in b.stmts)]
-        if not skips:
-            continue
-        # switches whose operand derives from a written self field
-        gate_edges = []
-        for bi, b in enumerate(body.blocks):
-            if b.cleanup or b.term[0] != 'sw' or b.term[1][0] not in ('copy', 'move'):
-                continue
-            og = fn_origins(g, b.term[1], True)
-            if any(has(og, 'pty:ChainReaderBlockStreamer.%s*' % w) for w in written):
-                gate_edges.append(bi)
-        for sb in skips:
-            # the skip block must be unreachable once one outgoing edge of such a switch is removed (i.e. the switch decides it)
-            for gb in gate_edges:
-                for succ in body.succ(gb):
-                    if sb not in body.reach_bool([0], removed={(gb, succ)}):
-                        state_gated = True
+    inst = 'a RollBackward is skipped only when its slot equals the slot the scan started from'
     inst2 = 'the skip is also gated by streamer state written while polling (only the opening roll-back, before any block was delivered)'
-    if nskip and not state_gated:
-        R.violation('g', 'R6', inst2, 'streamer:skip-stateless', 'SkipToNextAction depends only on slot == from.slot (state fields written while polling: %s): after blocks '
-                    'were streamed, a fork whose fork point is exactly the start point is never rolled back in the store' % sorted(written), lf.loc())
-    elif nskip:
-        R.ok('g', 'R6', inst2, 'state fields: %s' % sorted(written), lf.loc())
-    if nskip == 0:
-        R.ok('g', 'R6', inst, 'no roll-back is ever skipped', lf.loc())
-    elif problems:
-        R.violation('g', 'R6', inst, 'streamer:skip-rollback', '; '.join(problems[:3]) + ': a real roll-back older than the resume point never reaches the '
-                    'store, the abandoned fork stays and `insert or ignore` drops the canonical blocks with the same numbers', lf.loc())
+    examined = 0
+    verdict_eq = verdict_state = True
+    detail = []
+    for raw in ctx.closure_fns(PN, depth=3):
+        if not (raw.name.startswith('<' + SELF + ' as ') or raw.name.startswith(SELF + '::')):
+            continue
+        v = ctx.view(raw)
+        for g in v.family():
+            body = g.body
+            # where a RollBackward event is taken apart, and the locals holding its payload
+            rb_blocks, payload = set(), set()
+            for bi, blk in enumerate(body.blocks):
+                if blk.cleanup:
+                    continue
+                for (_l, pl, rv) in blk.stmts:
+                    for (l_, place_) in rvalue_reads(rv):
+                        if any(isinstance(pe, tuple) and pe[0] == 'd' and pe[2] == 'RollBackward' for pe in place_[1]) and \
+                                'ChainBlockNextAction' in body.lty(l_):
+                            rb_blocks.add(bi)
+                            if not pl[1]:
+                                payload.add(pl[0])
+            if not rb_blocks:
+                continue
+            gs_eq = [x for x in find_guards(body) if x.op in ('Eq', 'Ne') and
+                     ((has(x.a_orig, '*from.slot_number*') and not has(x.b_orig, '*from.slot_number*')) or
+                      (has(x.b_orig, '*from.slot_number*') and not has(x.a_orig, '*from.slot_number*')))]
+            ord_from = [x for x in find_guards(body) if x.op in ('Lt', 'Le', 'Gt', 'Ge') and has(x.a_orig | x.b_orig, '*from.slot_number*')]
+            pay = flows_forward_(body, payload)
+            fwd = set()
+            for bi, blk in enumerate(body.blocks):
+                if blk.cleanup:
+                    continue
+                for (_l, pl, rv) in blk.stmts:
+                    if rv[0] == 'agg' and rv[1] == 'adt' and any(o[0] in ('copy', 'move') and o[1][0] in pay for o in rv[5]) and \
+                            not (rv[2] or '').startswith('std::'):
+                        fwd.add(bi)
+                if blk.term[0] == 'call' and any(n.endswith('::truncate') for n in blk.term[1].names()):
+                    fwd.add(bi)
+            nxt = {c.bb for c in body.calls() if any(glob_match(NEXT[0], n) for n in c.names())}
+            for h2 in ctx.closure_fns(raw, depth=2):
+                if h2 is not raw and ctx.closure_sites(h2, NEXT, depth=2):
+                    nxt |= {c.bb for c in body.calls() if h2.name in c.names()}
+            exits = nxt | {bi for bi, blk in enumerate(body.blocks) if blk.term[0] == 'ret' and not blk.cleanup}
+            starts = sorted(rb_blocks)
+
+            def moves_on(removed):
+                r = body.reach(starts, removed=removed, stop=fwd | (nxt - rb_blocks))
+                return sorted((r & exits) - rb_blocks)
+            if not moves_on(set()):
+                examined += 1
+                detail.append('%s: no roll-back is ever skipped' % fn_short(raw.name))
+                continue
+            examined += 1
+            eq_edges = set()
+            for x in gs_eq:
+                eq_edges |= (x.true_edges if x.op == 'Eq' else x.false_edges)
+            if ord_from and not gs_eq:
+                verdict_eq = False
+                detail.append('%s: the skip is decided by an ordering comparison with the start slot (%s)' % (fn_short(raw.name), [x.op for x in ord_from]))
+            elif not eq_edges or moves_on(eq_edges):
+                verdict_eq = False
+                detail.append('%s: the streamer moves on without forwarding the roll-back although its slot differs from the start slot' % fn_short(raw.name))
+            gated = False
+            for bi, blk in enumerate(body.blocks):
+                if blk.cleanup or blk.term[0] != 'sw' or blk.term[1][0] not in ('copy', 'move'):
+                    continue
+                og = fn_origins(g, blk.term[1], True)
+                if any(has(og, 'pty:ChainReaderBlockStreamer.%s*' % w) for w in written):
+                    for succ in body.succ(bi):
+                        if not moves_on({(bi, succ)}):
+                            gated = True
+            if not gated:
+                verdict_state = False
+                detail.append('%s: the skip depends on no streamer state (fields written while polling: %s)' % (fn_short(raw.name), sorted(written)))
+    if not examined:
+        R.missing('g', 'no code taking a ChainBlockNextAction::RollBackward apart was found under ChainReaderBlockStreamer::poll_next')
+        return
+    if verdict_eq:
+        R.ok('g', 'R6', inst, '; '.join(detail)[:200], pn.loc())
     else:
-        R.ok('g', 'R6', inst, '%d skip site(s)' % nskip, lf.loc())
+        R.violation('g', 'R6', inst, 'streamer:skip-rollback', '; '.join(detail)[:600] + ': a real roll-back older than the resume point never reaches the '
+                    'store, the abandoned fork stays and `insert or ignore` drops the canonical blocks with the same numbers', pn.loc())
+    if verdict_state:
+        R.ok('g', 'R6', inst2, 'state fields: %s' % sorted(written), pn.loc())
+    else:
+        R.violation('g', 'R6', inst2, 'streamer:skip-stateless', '; '.join(detail)[:600] + ': after blocks were streamed, a fork whose fork point is exactly the start '
+                    'point is never rolled back in the store', pn.loc())
+
+
+def flows_forward_(body, starts):
+    from engine import flows_forward
+    return flows_forward(body, set(starts), True, mut_refs_only=True) if starts else set()
 
 
 from engine import CMP_REL as CMP_REL_, ALL3 as ALL3_  # noqa: E402
